@@ -42,6 +42,11 @@ CPP_COMMON = ["-DHAVE_CONFIG_H", "-D_POSIX_C_SOURCE=200112L",
 VARIANTS = {
     "san": dict(cc="gcc", shim=True, guard=True,
                 cflags=["-O1", "-g", "-fno-omit-frame-pointer",
+                        # gcc's scalar replacement of aggregates splits the packed
+                        # 16-byte dt_dt_s and then reads the 48-bit bit-field with an
+                        # 8-byte load that straddles two of the pieces: ASan reports a
+                        # stack "unknown-crash" in dround_ddur on correct code
+                        "-fno-tree-sra",
                         "-fsanitize=address,bounds,null,unreachable",
                         # bounds reports are collected from stderr and filtered
                         # against BENIGN_UB in core.py (row-overrun inside one
@@ -51,7 +56,7 @@ VARIANTS = {
                 ldflags=["-fsanitize=address,bounds,null,unreachable"]),
     # hostile initial contents of autos: C13/C20 thorough tier
     "pat": dict(cc="gcc", shim=True, guard=True,
-                cflags=["-O1", "-g", "-fno-omit-frame-pointer",
+                cflags=["-O1", "-g", "-fno-omit-frame-pointer", "-fno-tree-sra",
                         "-fsanitize=address,bounds,null,unreachable",
                         "-fno-sanitize-recover=null,unreachable",
                         "-fsanitize-recover=bounds",
